@@ -136,6 +136,18 @@ static void envelope_part(int r, int c, long long p, int fam, const SG& G, const
   C("transitions");
   Env ch(env); ch.cholDec();
   if ((int)ch.defect() != nul) bad("envelope", "Envelope::defect", "", "defect " + std::to_string(ch.defect()) + " exact nullity " + std::to_string(nul) + " perm " + join(std::vector<int>(perm.begin() + 1, perm.end())));
+  // copies stay independent when one of them is factored in place, and a copy of a factor is a factor
+  { Env c2(env); c2.cholDec(); Env c3; c3 = env; c3.cholDec(); Env c4(ch); Env c5; c5 = ch; C("transitions", 4);
+    bool same = true, untouched = true;
+    for (int a = 1; a <= c; a++) for (int b = 1; b <= a; b++) {
+      const double* e0 = env.element(a, b); const double* x = ch.element(a, b);
+      if ((e0 ? *e0 : 0.0) != (double)N(a - 1, b - 1)) untouched = false;
+      for (const Env* o : {&c2, &c3, &c4, &c5}) { const double* y = o->element(a, b); if ((x == nullptr) != (y == nullptr) || (x && *x != *y)) same = false; }
+    }
+    if (!untouched) bad("envelope", "Envelope::copy", "source-changed-by-cholDec-of-copy", "factoring a copy changed the original");
+    if (!same) bad("envelope", "Envelope::copy", "factor-of-copy-differs", "cholDec of a copy / copy of the factor differs from the factor");
+    if (c2.defect() != ch.defect() || c3.defect() != ch.defect()) bad("envelope", "Envelope::copy", "defect-of-factored-copy", "defect differs");
+    if (c4.defect() != ch.defect() || c5.defect() != ch.defect()) bad("envelope", "Envelope::copy", "defect-not-copied", "copy of a factor with defect " + std::to_string(ch.defect()) + " reports defect " + std::to_string(c4.defect()) + " / " + std::to_string(c5.defect())); }
   LD scale = std::max<LD>(1, maxabs(N));
   for (int a = 1; a <= c; a++) {
     double d = ch.diagonal(a);
